@@ -8,7 +8,7 @@ use crate::{for_both, Ctx, Tier};
 use blsful::*;
 use serde_json::json;
 
-pub const RULE: &str = "n in {2,3,5,16,33} (quick) / every n in 2..=64 (thorough) x 3 schemes x 2 groups: n fresh keys, n distinct messages (lengths from the length classes), library aggregate. Checked: honest list in original order, reversed, rotated and 3 seeded shuffles must verify; single-position perturbations (message bit flip, key replaced, pair dropped, pair added, two messages swapped between different signers) at positions first/middle/last (quick) or every position for n<=16 and 8 sampled positions above (thorough) must fail; duplicate-message multisets (two signers / all signers share one message) with the algebraically valid aggregate must be rejected by Basic and accepted by Aug and PoP; refusal matrix of from_signatures: 0 and 1 inputs, every mixed-scheme assignment for n<=3 at every position. Every decision is also taken by the reference CoreAggregateVerify (+ Basic's uniqueness rule) over the same bytes; expectation != reference is a harness error. Distinct by (suite, scheme, variant, list bytes, aggregate); non-trivial = all keys decode, aggregate not the identity, the multi-pairing decides.";
+pub const RULE: &str = "n in {2,3,5,16,33} (quick) / every n in 2..=64 (thorough) x 3 schemes x 2 groups: n fresh keys, n distinct messages (lengths from the length classes), library aggregate. Checked: honest list in original order, reversed, rotated and 3 seeded shuffles must verify; single-position perturbations (message bit flip, key replaced, pair dropped, pair added, two messages swapped between different signers) at positions first/middle/last (quick) or every position for n<=16 and 8 sampled positions above (thorough) must fail; duplicate-message multisets (two signers / all signers share one message) with the algebraically valid aggregate must be rejected by Basic and accepted by Aug and PoP; the same (key, message) pair occurring twice (signature counted twice) in three arrangements must be accepted by Aug and PoP, and the aggregate lacking the second signature must be rejected; refusal matrix of from_signatures: 0 and 1 inputs, every mixed-scheme assignment for n<=3 at every position. Every decision is also taken by the reference CoreAggregateVerify (+ Basic's uniqueness rule) over the same bytes; expectation != reference is a harness error. Distinct by (suite, scheme, variant, list bytes, aggregate); non-trivial = all keys decode, aggregate not the identity, the multi-pairing decides.";
 
 pub fn run(ctx: &mut Ctx) {
     for_both!(run_suite, ctx);
@@ -26,7 +26,7 @@ fn run_suite<C: Suite>(ctx: &mut Ctx) {
     let n = C::NAME;
     let mut g = base;
     for scheme in SCHEMES {
-        for kind in ["honest-order", "honest-permuted", "msg-flip", "key-replaced", "pair-dropped", "pair-added", "msgs-swapped", "dup-two", "dup-all"] {
+        for kind in ["honest-order", "honest-permuted", "msg-flip", "key-replaced", "pair-dropped", "pair-added", "msgs-swapped", "dup-two", "dup-all", "same-pair-twice"] {
             ctx.require(&format!("{n}/{}/{kind}", scheme.name()));
         }
         for cnt in sizes(ctx.tier) {
@@ -168,6 +168,32 @@ fn one_list<C: Suite>(ctx: &mut Ctx, g: u64, scheme: Scheme, cnt: usize) {
         let d: Vec<(PublicKey<C>, Vec<u8>)> = pks.iter().copied().zip(m2.iter().cloned()).collect();
         let expect = scheme != Scheme::Basic;
         check::<C>(ctx, &format!("{n}/{sn}/{kind}"), scheme, kind, expect, &agg2, &d);
+    }
+    // the SAME signer signs the SAME message twice: the pair occurs twice in the list and its
+    // signature twice in the aggregate (valid in Aug/PoP in every arrangement, rejected by Basic);
+    // and the honest aggregate against a list with one pair duplicated (always invalid)
+    {
+        let mut sigs2 = sigs.clone();
+        sigs2.push(sigs[0]);
+        if let Ok(agg2) = AggregateSignature::<C>::from_signatures(&sigs2) {
+            let dup = data[0].clone();
+            let mut arrangements: Vec<(&str, Vec<(PublicKey<C>, Vec<u8>)>)> = Vec::new();
+            let mut d = data.clone();
+            d.insert(1, dup.clone());
+            arrangements.push(("same-pair-twice/adjacent-front", d));
+            let mut d = data.clone();
+            d.push(dup.clone());
+            arrangements.push(("same-pair-twice/separated", d));
+            let mut d = data.clone();
+            d.rotate_left(1);
+            d.push(dup.clone());
+            arrangements.push(("same-pair-twice/adjacent-back", d));
+            for (vn, d) in arrangements {
+                check::<C>(ctx, &format!("{n}/{sn}/same-pair-twice"), scheme, vn, scheme != Scheme::Basic, &agg2, &d);
+                // the aggregate WITHOUT the second signature must not verify against the longer list
+                check::<C>(ctx, &format!("{n}/{sn}/pair-added"), scheme, &format!("{vn}/aggregate-lacks-second-signature"), false, &agg, &d);
+            }
+        }
     }
     // the aggregate equals the plain sum (ties from_signatures to what verify checks)
     let rsum = refimpl::sum(sigs.iter().map(|s| rsig_of::<C>(s)));
